@@ -208,6 +208,17 @@ def replay(job, rec):
         for k, (part, exp) in enumerate(zip(parts, rec["parts"])):
             aux = auxs[k] if k < len(auxs) else {}
             exp = expand_expectations(exp, cfg)
+            if job.get("check_table_name") and aux.get("tpos"):
+                td = scn["dims"][0]
+                lbl = (envelope._item_name(td, aux["tpos"]) if td["kind"] in ("mr", "caitems")
+                       else envelope._cat_name(td, aux["tpos"]))
+                want = "Var %s: %s" % (td["var"], lbl)
+                evals += 1
+                got = getattr(part, "table_name", None)
+                if got != want:
+                    mism.append(Mismatch(prop_id, None, "table_name of partition %d is %r, "
+                                         "expected %r" % (k, got, want), {},
+                                         tags=dict(base_tags, prop="table_name")))
             for prop, e in exp.items():
                 if prop in skip or (only and prop not in only):
                     continue
